@@ -112,6 +112,11 @@ Poly Normaliser::norm(int t, bool fp) {
     int v = ev(x.a[0]);
     if (v >= 0) { nanGuards++; r = norm(x.a[v ? 1 : 2], fp); } else r = atom(t);
   }
+  else if (op == "abs" && !fp) {
+    Poly pa = norm(x.a[0], false); bool sq = pa.size() == 1 && pa.begin()->second.n > 0;
+    if (sq) for (auto &ve : pa.begin()->first) if (ve.second % 2) sq = false;
+    if (sq) r = pa; else r = atom(t);   // |m| = m for an even monomial with positive coefficient: signed overflow is undefined, so m >= 0
+  }
   else if (x.op == TT.OP_PIECE && !fp && x.k == 0) r = normTrunc(x.a[0], x.bytes);
   else if (op == "sitofp" || op == "fpext" || op == "fptrunc" || (op == "uitofp")) { r = norm(x.a[0], op != "sitofp" && op != "uitofp"); if (op == "fptrunc") { r = atom(t); } }
   else if (op == "reduce.add" && !fp) { for (int a : x.a) padd(r, norm(a, false), 1); }
@@ -137,7 +142,7 @@ Poly Normaliser::normTrunc(int t, int len) {
   if (x.op == TT.OP_ADD || x.op == TT.OP_SUB) { Poly r = normTrunc(x.a[0], len); padd(r, normTrunc(x.a[1], len), x.op == TT.OP_ADD ? 1 : -1); return r; }
   if (x.op == TT.OP_MUL) return pmul(normTrunc(x.a[0], len), normTrunc(x.a[1], len));
   if (x.op == TT.OP_SHL && TT.t[x.a[1]].op == TT.OP_C && TT.t[x.a[1]].k >= 0 && TT.t[x.a[1]].k < 62) return pmul(normTrunc(x.a[0], len), pconst(Q((long long)1 << TT.t[x.a[1]].k)));
-  if (x.op == TT.OP_C) return pconst(Q((long long)x.k));
+  if (x.op == TT.OP_C) { int64_t v = x.k; if (len < 8) v = (int64_t)((uint64_t)v << (64 - 8 * len)) >> (64 - 8 * len); return pconst(Q((long long)v)); }
   return atom(TT.mk(TT.OP_PIECE, {t}, 0, len));
 }
 int Normaliser::mulCount(int t, std::unordered_map<int, int> &m) {
@@ -154,6 +159,7 @@ int Normaliser::mulCount(int t, std::unordered_map<int, int> &m) {
 }
 
 // ================================================================ EXACT canonicaliser
+static bool isCmpAtomT(int t) { const std::string &o = OPS.name(TT.t[t].op); return o.compare(0, 5, "icmp.") == 0 || o.compare(0, 5, "fcmp.") == 0 || TT.t[t].op == TT.OP_NOT; }
 static bool commutative(int op) { return op == TT.OP_ADD || op == TT.OP_MUL || op == TT.OP_AND || op == TT.OP_OR || op == TT.OP_XOR || op == TT.OP_FADD || op == TT.OP_FMUL; }
 int Canon::canon(int t) {
   auto it = memo.find(t);
@@ -174,6 +180,24 @@ int Canon::canon(int t) {
   else if (x.op == TT.OP_FNEG && TT.t[x.a[0]].op == TT.OP_CF) r = TT.cfp(-TT.cfval(x.a[0]), x.bytes);
   else if (x.op == TT.OP_ADD && x.a[0] == x.a[1]) r = mk(TT.OP_MUL, {x.a[0], TT.cint(2, x.bytes)}, 0, x.bytes);
   else if ((op == "sdiv" || op == "udiv") && x.a[0] == x.a[1]) r = TT.cint(1, x.bytes); // x/x: division by zero is undefined, so the quotient is 1 wherever it is defined
+  else if (x.op == TT.OP_SUB && x.a[0] == x.a[1]) r = TT.cint(0, x.bytes);
+  else if (x.op == TT.OP_MUL && ((TT.t[x.a[0]].op == TT.OP_C && TT.t[x.a[0]].k == 0) || (TT.t[x.a[1]].op == TT.OP_C && TT.t[x.a[1]].k == 0))) r = TT.cint(0, x.bytes);
+  else if (op == "abs" && TT.t[x.a[0]].op == TT.OP_C) r = TT.cint(TT.t[x.a[0]].k < 0 ? -TT.t[x.a[0]].k : TT.t[x.a[0]].k, x.bytes);
+  else if (x.op == TT.OP_MUL && x.bytes == 8 && x.a.size() == 2 && ((TT.t[x.a[0]].op == TT.OP_C && TT.t[x.a[0]].k == 4294967297LL && TT.t[x.a[1]].op == TT.OP_ZEXT && TT.t[x.a[1]].k == 32) || (TT.t[x.a[1]].op == TT.OP_C && TT.t[x.a[1]].k == 4294967297LL && TT.t[x.a[0]].op == TT.OP_ZEXT && TT.t[x.a[0]].k == 32))) {
+    int z = TT.t[x.a[0]].op == TT.OP_ZEXT ? x.a[0] : x.a[1]; int v = TT.t[z].a[0]; r = TT.mk(TT.OP_CONCAT, {v, v}, 0, 8); // zext(x) * (2^32+1) splats x into both halves
+  }
+  else if (x.op == TT.OP_FSUB && TT.t[x.a[0]].op == TT.OP_FNEG && x.a[1] < TT.t[x.a[0]].a[0]) r = TT.mk(TT.OP_FSUB, {TT.mk(TT.OP_FNEG, {x.a[1]}, 0, x.bytes), TT.t[x.a[0]].a[0]}, 0, x.bytes); // (-a)-b == (-b)-a
+  else if (x.op == TT.OP_AND && x.bytes == 1 && x.a.size() == 2 && ((TT.t[x.a[0]].op == TT.OP_C && TT.t[x.a[0]].k == 1) || (TT.t[x.a[1]].op == TT.OP_C && TT.t[x.a[1]].k == 1))) {
+    // and(1, piece<lo,1>(lshr(y,k))): bit k+8lo of y; the top bit is the sign test
+    int o = (TT.t[x.a[0]].op == TT.OP_C && TT.t[x.a[0]].k == 1) ? x.a[1] : x.a[0]; const Term po = TT.t[o];
+    if (po.op == TT.OP_PIECE && po.bytes == 1 && TT.t[po.a[0]].op == TT.OP_LSHR && TT.t[TT.t[po.a[0]].a[1]].op == TT.OP_C) {
+      const Term sh = TT.t[po.a[0]]; int y = sh.a[0]; int64_t bit = TT.t[sh.a[1]].k + 8 * po.k;
+      if (bit == TT.t[y].bytes * 8 - 1) { bool neg = false; const Term vt = TT.t[y]; if (vt.op == TT.OP_XOR && TT.t[vt.a[0]].op == TT.OP_C && TT.t[vt.a[0]].k == -1) { y = vt.a[1]; neg = true; } else if (vt.op == TT.OP_XOR && TT.t[vt.a[1]].op == TT.OP_C && TT.t[vt.a[1]].k == -1) { y = vt.a[0]; neg = true; }
+        int lt = TT.mk("icmp.slt", {y, TT.cint(0, TT.t[y].bytes)}, TT.t[y].bytes * 8, 1); r = neg ? TT.mk(TT.OP_NOT, {lt}, 0, 1) : lt; }
+    }
+  }
+  else if (x.op == TT.OP_XOR && x.bytes == 1 && x.a.size() == 2 && TT.t[x.a[0]].op == TT.OP_C && (TT.t[x.a[0]].k & 1) && TT.t[x.a[1]].bytes == 1 && isCmpAtomT(x.a[1])) r = canon(TT.mk(TT.OP_NOT, {x.a[1]}, 0, 1));
+  else if (x.op == TT.OP_XOR && x.bytes == 1 && x.a.size() == 2 && TT.t[x.a[1]].op == TT.OP_C && (TT.t[x.a[1]].k & 1) && TT.t[x.a[0]].bytes == 1 && isCmpAtomT(x.a[0])) r = canon(TT.mk(TT.OP_NOT, {x.a[0]}, 0, 1));
   else if (x.op == TT.OP_SUB && TT.t[x.a[1]].op == TT.OP_C) r = mk(TT.OP_ADD, {x.a[0], TT.cint(-TT.t[x.a[1]].k, x.bytes)}, 0, x.bytes);
   else if (x.op == TT.OP_SHL && TT.t[x.a[1]].op == TT.OP_C && TT.t[x.a[1]].k >= 0 && TT.t[x.a[1]].k < 63) { int64_t m = (int64_t)1 << TT.t[x.a[1]].k; if (x.bytes < 8) m = (int64_t)((uint64_t)m << (64 - 8 * x.bytes)) >> (64 - 8 * x.bytes); r = mk(TT.OP_MUL, {x.a[0], TT.cint(m, x.bytes)}, 0, x.bytes); }
   else if (x.op == TT.OP_PIECE) {
@@ -199,14 +223,46 @@ int Canon::canon(int t) {
     if (ok && base >= 0 && TT.t[base].bytes == x.bytes && next == x.bytes) r = base;
   }
   else if (op.compare(0, 5, "fcmp.") == 0 || op.compare(0, 5, "icmp.") == 0) {
-    std::string p = op.substr(5); std::string q;
-    static const std::map<std::string, std::string> sw = {{"ogt", "olt"}, {"oge", "ole"}, {"ugt", "ult"}, {"uge", "ule"}, {"sgt", "slt"}, {"sge", "sle"}};
-    auto f = sw.find(p);
-    bool isI = op[0] == 'i';
-    if (f != sw.end() && !(isI && (p == "ugt" || p == "uge")) ) r = TT.mk(op.substr(0, 5) + f->second, {x.a[1], x.a[0]}, x.k, x.bytes);
-    else if (isI && (p == "ugt" || p == "uge")) r = TT.mk(std::string("icmp.") + (p == "ugt" ? "ult" : "ule"), {x.a[1], x.a[0]}, x.k, x.bytes);
-    else if ((p == "eq" || p == "ne" || p == "oeq" || p == "one" || p == "ueq" || p == "une" || p == "ord" || p == "uno") && x.a[1] < x.a[0]) r = TT.mk(x.op, {x.a[1], x.a[0]}, x.k, x.bytes);
+    // one canonical atom per comparison up to complement: {oeq, olt, ole, ord} / {ne, slt, ult} and NOT
+    std::string p = op.substr(5); bool isI = op[0] == 'i'; int a0 = x.a[0], a1 = x.a[1];
+    auto atomT = [&](const std::string &pp, int u, int v, bool sym) { if (sym && v < u) std::swap(u, v); return TT.mk((isI ? "icmp." : "fcmp.") + pp, {u, v}, x.k, 1); };
+    auto notT = [&](int u) { return TT.mk(TT.OP_NOT, {u}, 0, 1); };
+    if (isI) {
+      if (p == "ne") r = atomT("ne", a0, a1, true); else if (p == "eq") r = notT(atomT("ne", a0, a1, true));
+      else if (p == "slt" || p == "sgt") { int u = p == "slt" ? a0 : a1, v = p == "slt" ? a1 : a0; // u < v
+        if (TT.t[u].op == TT.OP_C && TT.t[v].op != TT.OP_C && TT.t[u].k < INT64_MAX) r = notT(atomT("slt", v, TT.cint(TT.t[u].k + 1, TT.t[u].bytes), false)); else r = atomT("slt", u, v, false); }
+      else if (p == "sge" || p == "sle") { int u = p == "sge" ? a0 : a1, v = p == "sge" ? a1 : a0; // !(u < v)
+        if (TT.t[v].op != TT.OP_C && TT.t[u].op == TT.OP_C && TT.t[u].k < INT64_MAX) r = atomT("slt", v, TT.cint(TT.t[u].k + 1, TT.t[u].bytes), false); /* C >= v  <=>  v < C+1 */ else r = notT(atomT("slt", u, v, false)); }
+      else if (p == "ult") r = atomT("ult", a0, a1, false); else if (p == "ugt") r = atomT("ult", a1, a0, false);
+      else if (p == "uge") r = notT(atomT("ult", a0, a1, false)); else if (p == "ule") r = notT(atomT("ult", a1, a0, false));
+    } else {
+      if (p == "oeq") r = atomT("oeq", a0, a1, true); else if (p == "une") r = notT(atomT("oeq", a0, a1, true));
+      else if (p == "one") r = atomT("one", a0, a1, true); else if (p == "ueq") r = notT(atomT("one", a0, a1, true));
+      else if (p == "ord") r = atomT("ord", a0, a1, true); else if (p == "uno") r = notT(atomT("ord", a0, a1, true));
+      else if (p == "olt") r = atomT("olt", a0, a1, false); else if (p == "ogt") r = atomT("olt", a1, a0, false);
+      else if (p == "ole") r = atomT("ole", a0, a1, false); else if (p == "oge") r = atomT("ole", a1, a0, false);
+      else if (p == "ult") r = notT(atomT("ole", a1, a0, false)); else if (p == "ugt") r = notT(atomT("ole", a0, a1, false));
+      else if (p == "ule") r = notT(atomT("olt", a1, a0, false)); else if (p == "uge") r = notT(atomT("olt", a0, a1, false));
+    }
   }
+  else if (x.op == TT.OP_ZEXT && x.k == 1 && x.bytes == 1) r = x.a[0];                       // i1 -> i8: same byte
+  else if ((x.op == TT.OP_OR || x.op == TT.OP_XOR || x.op == TT.OP_ADD) && x.a.size() == 2 && TT.t[x.a[0]].op == TT.OP_C && TT.t[x.a[0]].k == 0) r = x.a[1];
+  else if ((x.op == TT.OP_OR || x.op == TT.OP_XOR || x.op == TT.OP_ADD) && x.a.size() == 2 && TT.t[x.a[1]].op == TT.OP_C && TT.t[x.a[1]].k == 0) r = x.a[0];
+  else if (x.op == TT.OP_AND && x.a.size() == 2 && ((TT.t[x.a[0]].op == TT.OP_C && TT.t[x.a[0]].k == 0) || (TT.t[x.a[1]].op == TT.OP_C && TT.t[x.a[1]].k == 0))) r = TT.cint(0, x.bytes);
+  else if (x.op == TT.OP_LSHR && TT.t[x.a[1]].op == TT.OP_C && TT.t[x.a[1]].k == x.bytes * 8 - 1) { // sign bit as 0/1
+    int v = x.a[0]; bool neg = false; const Term &vt = TT.t[v];
+    if (vt.op == TT.OP_XOR && TT.t[vt.a[0]].op == TT.OP_C && TT.t[vt.a[0]].k == -1) { v = vt.a[1]; neg = true; } else if (vt.op == TT.OP_XOR && TT.t[vt.a[1]].op == TT.OP_C && TT.t[vt.a[1]].k == -1) { v = vt.a[0]; neg = true; }
+    int lt = TT.mk("icmp.slt", {v, TT.cint(0, x.bytes)}, x.bytes * 8, 1); if (neg) lt = TT.mk(TT.OP_NOT, {lt}, 0, 1);
+    r = TT.mk(TT.OP_ZEXT, {lt}, 1, x.bytes);
+  }
+  // sign manipulations that are exact in IEEE arithmetic
+  else if (x.op == TT.OP_FMUL && TT.t[x.a[0]].op == TT.OP_FNEG) r = canon(TT.mk(TT.OP_FNEG, {mk(TT.OP_FMUL, {TT.t[x.a[0]].a[0], x.a[1]}, 0, x.bytes)}, 0, x.bytes));
+  else if (x.op == TT.OP_FMUL && TT.t[x.a[1]].op == TT.OP_FNEG) r = canon(TT.mk(TT.OP_FNEG, {mk(TT.OP_FMUL, {x.a[0], TT.t[x.a[1]].a[0]}, 0, x.bytes)}, 0, x.bytes));
+  else if (x.op == TT.OP_FDIV && TT.t[x.a[0]].op == TT.OP_FNEG) r = canon(TT.mk(TT.OP_FNEG, {TT.mk(TT.OP_FDIV, {TT.t[x.a[0]].a[0], x.a[1]}, 0, x.bytes)}, 0, x.bytes));
+  else if (x.op == TT.OP_FDIV && TT.t[x.a[1]].op == TT.OP_FNEG) r = canon(TT.mk(TT.OP_FNEG, {TT.mk(TT.OP_FDIV, {x.a[0], TT.t[x.a[1]].a[0]}, 0, x.bytes)}, 0, x.bytes));
+  else if (x.op == TT.OP_FADD && TT.t[x.a[1]].op == TT.OP_FNEG) r = canon(TT.mk(TT.OP_FSUB, {x.a[0], TT.t[x.a[1]].a[0]}, 0, x.bytes));
+  else if (x.op == TT.OP_FADD && TT.t[x.a[0]].op == TT.OP_FNEG) r = canon(TT.mk(TT.OP_FSUB, {x.a[1], TT.t[x.a[0]].a[0]}, 0, x.bytes));
+  else if (x.op == TT.OP_FSUB && TT.t[x.a[1]].op == TT.OP_FNEG) r = canon(mk(TT.OP_FADD, {x.a[0], TT.t[x.a[1]].a[0]}, 0, x.bytes));
   if (r < 0) r = mk(x.op, x.a, x.k, x.bytes);
   memo[t] = r;
   return r;
@@ -233,11 +289,12 @@ uint64_t symBits(int nsi, int64_t cell, int point) {
     return fpToBits(v, ns.esz);
   }
   int bits = ns.esz * 8; uint64_t v;
+  // signed overflow is undefined in the reference programs, so integer points stay small: a refutation must be a
+  // defined execution of the scalar code (large-value discrepancies are left to the structural comparison)
   switch (point) {
-  case 0: v = (uint64_t)(int64_t)((int)(h % 17) - 8); break;
   case 4: v = 1 + h % 7; break;
-  case 5: { uint64_t top = 1ULL << (bits - 1); const uint64_t bd[] = {0, ~0ULL, 1, top, top - 1, 2, ~1ULL, top + 1}; v = bd[h % 8]; break; }
-  default: v = h; break;
+  case 5: { const int64_t bd[] = {0, -1, 1, 2, -2, 3, -3, 4}; v = (uint64_t)bd[h % 8]; break; }
+  default: v = (uint64_t)(int64_t)((int)(h % 17) - 8); break;
   }
   return v & maskB(ns.esz) & (bits >= 64 ? ~0ULL : ((1ULL << bits) - 1));
 }
@@ -459,27 +516,48 @@ static void mmFlatten(Canon &C, int t, int kind, std::set<int> &out, int &seenKi
   out.insert(C.canon(t));
 }
 
-// collect select conditions (for case splitting)
+// collect comparison atoms (for case splitting): maximal i1-valued comparison subterms
+static bool isCmpAtom(const Term &x) { const std::string &o = OPS.name(x.op); return o.compare(0, 5, "icmp.") == 0 || o.compare(0, 5, "fcmp.") == 0 || o == "signbit" || o == "bit" || x.op == TT.OP_TRUNC1; }
 static void selectConds(int t, std::set<int> &conds, std::set<int> &seen) {
   if (!seen.insert(t).second) return;
   const Term &x = TT.t[t];
   if (x.op == TT.OP_SYM || x.op == TT.OP_PTR) return;
-  if (x.op == TT.OP_SELECT) {
-    std::vector<int> st{x.a[0]};
-    while (!st.empty()) { int c = st.back(); st.pop_back(); const Term &y = TT.t[c]; if (y.op == TT.OP_NOT || y.op == TT.OP_GAND || y.op == TT.OP_GOR) { for (int a : y.a) st.push_back(a); } else conds.insert(c); }
-  }
+  if (isCmpAtom(x)) { conds.insert(t); return; }
   for (int a : x.a) selectConds(a, conds, seen);
 }
-static int resolveSel(int t, const std::map<int, bool> &val, std::unordered_map<int, int> &memo) {
+// substitute truth values for the atoms and fold the boolean structure around them
+static int resolveSel(int t, const std::map<int, bool> &val, std::unordered_map<int, int> &memo, Canon *CC = nullptr) {
   auto it = memo.find(t); if (it != memo.end()) return it->second;
   Term x = TT.t[t]; int r;
-  if (x.op == TT.OP_SYM || x.op == TT.OP_PTR || x.a.empty()) r = t;
-  else if (x.op == TT.OP_SELECT) {
-    std::function<int(int)> ev = [&](int c) -> int { const Term &y = TT.t[c]; if (y.op == TT.OP_NOT) { int v = ev(y.a[0]); return v < 0 ? -1 : !v; } if (y.op == TT.OP_GAND) { int res = 1; for (int a : y.a) { int v = ev(a); if (v == 0) return 0; if (v < 0) res = -1; } return res; } if (y.op == TT.OP_GOR) { int res = 0; for (int a : y.a) { int v = ev(a); if (v == 1) return 1; if (v < 0) res = -1; } return res; } if (y.op == TT.OP_C) return (y.k & 1) ? 1 : 0; auto f = val.find(c); return f == val.end() ? -1 : (f->second ? 1 : 0); };
-    int v = ev(x.a[0]);
-    if (v >= 0) r = resolveSel(x.a[v ? 1 : 2], val, memo);
-    else { for (auto &a : x.a) a = resolveSel(a, val, memo); r = TT.mk(x.op, x.a, x.k, x.bytes); }
-  } else { for (auto &a : x.a) a = resolveSel(a, val, memo); r = TT.mk(x.op, x.a, x.k, x.bytes); }
+  auto f = val.find(t);
+  if (f != val.end()) r = TT.cint(f->second ? 1 : 0, 1);
+  else if (x.op == TT.OP_SYM || x.op == TT.OP_PTR || x.a.empty()) r = t;
+  else {
+    for (auto &a : x.a) a = resolveSel(a, val, memo, CC);
+    auto cst = [&](int a, int64_t &v) { const Term &y = TT.t[a]; if (y.op != TT.OP_C) return false; v = y.k; return true; };
+    int64_t c0, c1;
+    if (x.op == TT.OP_SELECT && cst(x.a[0], c0)) r = x.a[(c0 & 1) ? 1 : 2];
+    else if (x.op == TT.OP_NOT && cst(x.a[0], c0)) r = TT.cint((c0 & 1) ? 0 : 1, 1);
+    else if ((x.op == TT.OP_ZEXT) && x.k == 1 && cst(x.a[0], c0)) r = TT.cint(c0 & 1, x.bytes);
+    else if ((x.op == TT.OP_SEXT) && x.k == 1 && cst(x.a[0], c0)) r = TT.cint((c0 & 1) ? -1 : 0, x.bytes);
+    else if (x.op == TT.OP_GAND || x.op == TT.OP_GOR) {
+      bool isAnd = x.op == TT.OP_GAND; std::vector<int> rest; bool decided = false;
+      for (int a : x.a) { if (cst(a, c0)) { if (((c0 & 1) != 0) != isAnd) decided = true; } else rest.push_back(a); }
+      if (decided) r = TT.cint(isAnd ? 0 : 1, 1); else if (rest.empty()) r = TT.cint(isAnd ? 1 : 0, 1); else if (rest.size() == 1) r = rest[0]; else r = TT.mk(x.op, rest, 0, 1);
+    }
+    else if ((x.op == TT.OP_AND || x.op == TT.OP_OR || x.op == TT.OP_XOR) && x.bytes == 1 && x.a.size() == 2 && (cst(x.a[0], c0) || cst(x.a[1], c1))) {
+      bool k0 = cst(x.a[0], c0); int64_t c = k0 ? c0 : (cst(x.a[1], c1), c1); int other = k0 ? x.a[1] : x.a[0]; int64_t oc; bool bothC = cst(other, oc);
+      if (bothC) r = TT.cint(x.op == TT.OP_AND ? ((c & oc) & 1) : x.op == TT.OP_OR ? ((c | oc) & 1) : ((c ^ oc) & 1), 1);
+      else if (x.op == TT.OP_AND) r = (c & 1) ? other : TT.cint(0, 1);
+      else if (x.op == TT.OP_OR) r = (c & 1) ? TT.cint(1, 1) : other;
+      else r = (c & 1) ? TT.mk(TT.OP_NOT, {other}, 0, 1) : other;
+    }
+    else r = TT.mk(x.op, x.a, x.k, x.bytes);
+    if (CC && r != t && isCmpAtom(TT.t[r])) { // a rebuilt comparison may coincide with an atom that already has a value
+      int cr = CC->canon(r); bool neg = false; if (TT.t[cr].op == TT.OP_NOT) { neg = true; cr = TT.t[cr].a[0]; }
+      auto g = val.find(cr); if (g != val.end()) r = TT.cint((g->second != neg) ? 1 : 0, 1);
+    }
+  }
   memo[t] = r; return r;
 }
 
@@ -506,22 +584,34 @@ CmpResult Comparer::compare(int a, int b, const std::string &mode, bool fp, int 
     if (res.got.empty()) { res.got = polyStr(pa); res.expected = polyStr(pb); }
     if (mode == "ALG" && !polyHasAtoms(pa) && !polyHasAtoms(pb)) structuralOnly = true; // atom-free forms: the mismatch is complete
   }
-  // case split over select conditions shared by both sides
+  // Shannon expansion over comparison atoms, innermost first: under each truth assignment the boolean structure is
+  // folded away and the residual terms are compared in the requested mode (atoms are treated as independent, which
+  // can only make the test stricter)
   {
-    std::set<int> conds, seen; selectConds(ca, conds, seen); selectConds(cb, conds, seen);
-    if (!conds.empty() && conds.size() <= 12) {
-      std::vector<int> cv(conds.begin(), conds.end()); bool allEq = true;
-      for (uint64_t bitsv = 0; bitsv < (1ULL << cv.size()) && allEq; bitsv++) {
-        std::map<int, bool> val; for (size_t i = 0; i < cv.size(); i++) val[cv[i]] = (bitsv >> i) & 1;
-        std::unordered_map<int, int> m1; int ra = resolveSel(ca, val, m1), rb = resolveSel(cb, val, m1);
-        if (ra == rb) continue;
-        Canon C2; if (C2.canon(ra) == C2.canon(rb)) continue;
-        if (mode == "ALG" || (mode == "EXACT" && !fp)) { Normaliser N2; N2.cap = N.cap; Poly pa = N2.norm(ra, fp), pb = N2.norm(rb, fp); if (!N2.capped && !N2.overflow && pa == pb) continue; }
-        if (mode == "MINMAX") { std::set<int> sa, sb; int ka = 0, kb = 0; bool ok = true; mmFlatten(C2, ra, 0, sa, ka, ok); mmFlatten(C2, rb, 0, sb, kb, ok); if (sa == sb && (ka == kb || sa.size() == 1)) continue; }
-        allEq = false;
+    long budget = 4096; int natoms = 0;
+    std::map<int, bool> val;
+    std::function<bool(int, int, int)> splitEq = [&](int ta, int tb, int depth) -> bool {
+      if (--budget < 0) return false;
+      Canon C2; int xa = C2.canon(ta), xb = C2.canon(tb);
+      if (xa == xb) return true;
+      { const Term &ya = TT.t[xa], &yb = TT.t[xb]; if (bytes == 1 && ya.op == TT.OP_C && yb.op == TT.OP_C && ((ya.k ^ yb.k) & 1) == 0) return true; }
+      // innermost atom: a comparison none of whose proper subterms is a comparison
+      std::set<int> conds, seen; 
+      std::function<void(int)> deep = [&](int t) { if (!seen.insert(t).second) return; const Term &x = TT.t[t]; if (x.op == TT.OP_SYM || x.op == TT.OP_PTR) return; if (isCmpAtom(x)) conds.insert(t); for (int a : x.a) deep(a); };
+      deep(xa); deep(xb);
+      int pick = -1;
+      for (int c : conds) { std::set<int> inner, sn; std::function<void(int)> d2 = [&](int t) { if (!sn.insert(t).second) return; const Term &x = TT.t[t]; if (x.op == TT.OP_SYM || x.op == TT.OP_PTR) return; if (t != c && isCmpAtom(x)) inner.insert(t); for (int a : x.a) d2(a); }; d2(c); if (inner.empty()) { pick = c; break; } }
+      if (pick < 0 || depth > 14) {
+        if (mode == "ALG" || (mode == "EXACT" && !fp)) { Normaliser N2; N2.cap = N.cap; N2.C = &C2; Poly pa = N2.norm(xa, fp), pb = N2.norm(xb, fp); if (!N2.capped && !N2.overflow && pa == pb) return true; }
+        if (mode == "MINMAX") { std::set<int> sa, sb; int ka = 0, kb = 0; bool ok = true; mmFlatten(C2, xa, 0, sa, ka, ok); mmFlatten(C2, xb, 0, sb, kb, ok); if (sa == sb && (ka == kb || sa.size() == 1)) return true; }
+        return false;
       }
-      if (allEq) { res.how = "case-split over " + std::to_string(cv.size()) + " conditions"; nSplit++; return res; }
-    }
+      natoms = std::max(natoms, depth + 1);
+      for (int v = 1; v >= 0; v--) { val[pick] = v; std::unordered_map<int, int> m1; int ra = resolveSel(xa, val, m1, &C2), rb = resolveSel(xb, val, m1, &C2); bool ok = splitEq(ra, rb, depth + 1); val.erase(pick); if (!ok) return false; }
+      return true;
+    };
+    std::set<int> c0, s0; selectConds(ca, c0, s0); selectConds(cb, c0, s0);
+    if (!c0.empty() && splitEq(ca, cb, 0)) { res.how = "case-split over " + std::to_string(natoms) + " comparison atoms"; nSplit++; return res; }
   }
   if (res.got.empty()) { res.got = TT.str(ca); res.expected = TT.str(cb); }
   // refutation at a point: evaluate both extracted terms on concrete inputs
